@@ -423,16 +423,16 @@ func (s *State) diffIOSACLs(al, bl []*cmd, diff []edit.Range) {
 	// Generate move command which sends add and delete command together
 	// as a single command.
 	// Ignore move if both positions belong to the same block.
-	moveACL := func(a *cmdAndPos, b *cmd, before, i int, moveOK bool) {
+	// behindOK: all lines inserted in front of b have the action of b.
+	// frontOK: all lines inserted behind b have the action of b.
+	moveACL := func(a *cmdAndPos, b *cmd, before, i int, behindOK, frontOK bool) {
 		defer func() { a.cmd = nil }()
-		if moveOK {
-			oldID := idx2Block[a.pos]
-			if before > 0 && idx2Block[before-1] == oldID {
-				return
-			}
-			if before < len(idx2Block) && idx2Block[before] == oldID {
-				return
-			}
+		oldID := idx2Block[a.pos]
+		if behindOK && before > 0 && idx2Block[before-1] == oldID {
+			return
+		}
+		if frontOK && before < len(idx2Block) && idx2Block[before] == oldID {
+			return
 		}
 		delACL(a)
 		delIdx := len(s.Changes) - 1
@@ -515,14 +515,20 @@ func (s *State) diffIOSACLs(al, bl []*cmd, diff []edit.Range) {
 			if r.HighB-r.LowB >= 10000 {
 				errlog.Abort("Can't insert more than 9999 ACL lines at once")
 			}
-			action0 := getIOSAction(bl[r.LowB])
+			run := bl[r.LowB:r.HighB]
+			action0 := getIOSAction(run[0])
+			// Index of first of trailing lines having identical action.
+			tail := len(run) - 1
+			for tail > 0 && getIOSAction(run[tail-1]) == getIOSAction(run[tail]) {
+				tail--
+			}
 			moveOK := true
-			for i, b := range bl[r.LowB:r.HighB] {
+			for i, b := range run {
 				moveOK = moveOK && action0 == getIOSAction(b)
 				p := s.printNetspocCmd(b)
 				p = stripLogRX.ReplaceAllLiteralString(p, "")
 				if cmdPos, found := delMap[p]; found {
-					moveACL(cmdPos, b, r.LowA, i, moveOK)
+					moveACL(cmdPos, b, r.LowA, i, moveOK, i >= tail)
 					// Line on device can be moved only once.
 					delete(delMap, p)
 				} else {
